@@ -114,6 +114,12 @@ def run(chk: Check) -> None:
     sub = chk.sub()
     _tree_dispatch(sub, cf)
     chk.adopt(sub, None, "R08.4")
+    from .c15 import bracket_matching
+    from .c14 import _unknown
+    sub = chk.sub()
+    bracket_matching(sub, "R08.4")
+    _unknown(sub)
+    chk.adopt(sub, None, "R08.4")
     encode_stream(chk, "R08.4")
     codec_state(chk, "R08.5")
     no_result_caches(chk, "R08.5")
